@@ -24,12 +24,14 @@ def one(p):
         return p, out
     finally:
         shutil.rmtree(d, ignore_errors=True)
+bad = n = 0
 with ThreadPoolExecutor(16) as ex:
-    res = list(ex.map(one, patches))
-bad = 0
-for p, out in res:
-    if out:
-        bad += 1
-        print('===', p)
-        print('\n'.join(out))
-print(f'{len(res)} patches, {bad} raise something')
+    for p, out in ex.map(one, patches):       # results are printed as they arrive, so a run that is cut short still tells something
+        n += 1
+        if out:
+            bad += 1
+            print('===', p)
+            print('\n'.join(out), flush=True)
+        if n % 25 == 0:
+            print(f'... {n} of {len(patches)} done, {bad} raise something', flush=True)
+print(f'{n} patches, {bad} raise something')
